@@ -50,6 +50,16 @@ class _Sink(logging.Handler):
                 if lf["seen"] >= lf["at"]:
                     # fault: the application's log handler fails while handling this record
                     lf["fired"] = True
+                    if lf.get("reenter") is not None:
+                        # not a failure: the application's handler itself uses the library
+                        # (a nested parse on the same thread) before it returns
+                        saved = c.log
+                        c.log = []
+                        try:
+                            lf["reenter"]()
+                        finally:
+                            c.log = saved
+                        return
                     raise lf["exc"]
         else:
             _lock_free_records.append(rec)
